@@ -76,11 +76,10 @@ def run(ctx, f, rep):
             have_msg = None   # index where a Message item was taken
             for i, ev in enumerate(p.events):
                 if ev.kind == "store" and ev.extra and ev.extra.get("k") == "assign":
-                    pr = ev.extra["place"]["p"]
-                    if pr and pr[0]["k"] == "deref":
-                        fl = [x.get("name") for x in pr if x["k"] == "field"]
-                        if fl and fl[0] in fields:
-                            dirty.append((i, "store to self.%s" % fl[0], ev))
+                    # where the store lands in terms of the socket (also when it happens in a private helper through `&mut self.field`)
+                    nm = self_rooted_field(ev.target, fields) if ev.target is not None else None
+                    if nm is not None and pathq.mentions_call(ev.target, lambda y: short(y[1]) in ("deref", "deref_mut", "lock")) is None:
+                        dirty.append((i, "store to self.%s" % nm, ev))
                 elif ev.kind == "call" and ev.extra != "inlined" and short(ev.name) in DESTRUCTIVE and ev.args and not pathq.is_poll(ev):
                     nm = self_rooted_field(ev.args[0], fields)
                     # direct field of the socket (not something reached through an Arc'ed backend or the queue's own state)
